@@ -176,7 +176,13 @@ def lifecycle_lines(r, shim, n):
             f, text = cg[(i // 4) % len(cg)]
             ops = ["push " + _life.hx([ord(ch) for ch in text]), f"flags {r.choice(FLAGS)}", r.choice(["shape -", "plan -"])]
         req, _ = _life.sensitive_request(r, _life.SENSITIVE[i % len(_life.SENSITIVE)])
-        ops += ["clear"] + req
+        if i % 5 == 4:
+            # contexts set several times within one request (longer, then shorter / empty / transparent-only), add() and
+            # push_str interleaved: every call's state is read back
+            req, _, _ = _life.recontext_request(r)
+            if r.chance(1, 3):
+                ops = []
+        ops += (["clear"] if ops else []) + req
         if r.chance(2, 3):
             ops += [r.choice(["shape -", "plan -"]), "clear"]
         used = {int(x, 16) for o in ops if o.split()[0] in ("push", "add", "pushn") for x in o.split()[1].split(",") if x != "-"}
@@ -301,7 +307,7 @@ def recycle_search(ctx, shim, r, n):
             pass
         req = fill_ops(r, scripts, big=r.chance(1, 25))
         cases.append((f, hist, req, r.choice(["shape ", "plan "]) + r.choice(FEATS)))
-    cases = [c + ("random",) for c in cases]
+    cases = [c + ("random", None) for c in cases]
     # histories that leave EVERY kind of residue (cursor after an in-place GPOS pass, both contexts, properties, level,
     # not-found glyph, flags, allocation) followed by requests that are sensitive to one kind each (tools/props/_life.py)
     rf = _life.residue_font()
@@ -311,7 +317,14 @@ def recycle_search(ctx, shim, r, n):
         hist = _life.residue_use(r, fam if r.chance(1, 2) else None)
         if r.chance(1, 3):
             hist = _life.residue_use(r) + ["clear"] + hist
-        cases.append((rf, hist, req, r.choice(["shape ", "plan "]) + r.choice(_life.FEATS), kind))
+        cases.append((rf, hist, req, r.choice(["shape ", "plan "]) + r.choice(_life.FEATS), kind, None))
+    # requests that set their contexts SEVERAL times (longer joining texts, then the effective one: empty, transparent-only,
+    # shorter, arbitrary; add() / push_str interleaved), on a recycled or on a brand-new buffer; the reference is a fresh
+    # buffer that is only ever given the effective context of each side
+    for i in range(ctx.budget(600, 15000)):
+        req, eq, fam = _life.recontext_request(r)
+        hist = _life.residue_use(r, fam if r.chance(1, 2) else None) if i % 3 else []
+        cases.append((rf, hist, req, r.choice(["shape ", "plan "]) + r.choice(_life.FEATS), "recontext", eq))
     # the same on corpus fonts that have GPOS and a dotted circle, with the corpus' own texts: earlier use = the text,
     # request = the text with its first combining mark moved to the front, BEGINNING_OF_TEXT, every cluster level
     cg = _life.corpus_gpos_cases(shim, corpus.load())
@@ -324,16 +337,16 @@ def recycle_search(ctx, shim, r, n):
                 "post " + _life.hx([ord(ch) for ch in text[:3]]), f"flags {r.choice(FLAGS)}", f"level {r.below(3)}",
                 r.choice(["shape -", "plan -"])]
         cases.append((fs, hist, ["push " + _life.hx(t2), f"flags {r.choice(_life.FLAGS_BOT)}", f"level {r.below(3)}"],
-                      r.choice(["shape -", "plan -"]), "corpus-mark-first"))
+                      r.choice(["shape -", "plan -"]), "corpus-mark-first", None))
     lines = []
-    for f, hist, req, fin, kind in cases:
-        lines.append(f"lc {f} ; " + " ; ".join(hist + ["clear"] + req + [fin, "dump"]))
-        lines.append(f"lc {f} ; " + " ; ".join(["new"] + req + [fin, "dump"]))
+    for f, hist, req, fin, kind, eq in cases:
+        lines.append(f"lc {f} ; " + " ; ".join((hist + ["clear"] if hist or eq is None else ["new"]) + req + [fin, "dump"]))
+        lines.append(f"lc {f} ; " + " ; ".join(["new"] + (eq or req) + [fin, "dump"]))
     outs = vlib.run_lines(shim, lines, timeout=900)
     bad = []
     nontriv = 0
     kinds, badkinds = {}, {}
-    for i, (f, hist, req, fin, kind) in enumerate(cases):
+    for i, (f, hist, req, fin, kind, eq) in enumerate(cases):
         a, b = outs[2 * i], outs[2 * i + 1]
         kinds[kind] = kinds.get(kind, 0) + 1
         nb = len(bad)
@@ -371,7 +384,13 @@ def recycle_search(ctx, shim, r, n):
             pick.append(x)
             shown.add(k)
     for _, i, what, x, y in pick:
-        f, hist, req, fin, kind = cases[i]
+        f, hist, req, fin, kind, eq = cases[i]
+        if eq is not None:
+            ctx.violation("a buffer whose contexts were set several times is not equivalent to a fresh buffer given only the "
+                          f"last context of each side — {what}",
+                          {"stage": "search", "stream": "recycle", "kind": kind, "font": f, "history": hist, "request": req,
+                           "fresh_request": eq, "final": fin, "recycled": x, "fresh": y})
+            continue
         ctx.violation(f"buffer recycled with clear() is not equivalent to a fresh buffer — {what}",
                       {"stage": "search", "stream": "recycle", "kind": kind, "font": f, "history": hist, "request": req,
                        "final": fin, "recycled": x, "fresh": y})
@@ -385,7 +404,11 @@ def recycle_search(ctx, shim, r, n):
                          "followed by a request sensitive to one of them: mark-first text with BEGINNING_OF_TEXT (longer and "
                          "shorter than the earlier output), joining text ending / starting in a dual-joining letter filled by "
                          "push_str without a context call, an unsupported variation selector, no property call at all; and "
-                         "corpus fonts with GPOS and U+25CC on the corpus' texts (mark moved to the front), all cluster levels")
+                         "corpus fonts with GPOS and U+25CC on the corpus' texts (mark moved to the front), all cluster levels; kind "
+                         "recontext: joining text whose pre- and post-context are set SEVERAL times before shaping (1-2 longer texts of "
+                         "dual-joining letters, then the effective one: empty, transparent-only, mark+base, one letter, arbitrary; "
+                         "set_pre_context / set_post_context / add / push_str in six interleavings), on a recycled (2/3) or brand-new "
+                         "(1/3) buffer, vs a fresh buffer that only ever gets the effective context of each side")
 
 
 def repeat_search(ctx, shim, r, ncases):
@@ -564,8 +587,9 @@ def replay(ctx, rp):
     st = rp.get("stream")
     if st == "recycle":
         f = rp["font"]
-        a = f"lc {f} ; " + " ; ".join(rp["history"] + ["clear"] + rp["request"] + [rp["final"], "dump"])
-        b = f"lc {f} ; " + " ; ".join(["new"] + rp["request"] + [rp["final"], "dump"])
+        eq = rp.get("fresh_request")
+        a = f"lc {f} ; " + " ; ".join((rp["history"] + ["clear"] if rp["history"] or eq is None else ["new"]) + rp["request"] + [rp["final"], "dump"])
+        b = f"lc {f} ; " + " ; ".join(["new"] + (eq or rp["request"]) + [rp["final"], "dump"])
         oa, ob = vlib.run_lines(shim, [a, b], nproc=1)
         sa, sb = oa.split(" | "), ob.split(" | ")
         print("recycled request:", a[:2000]); print("fresh request   :", b[:2000])
